@@ -22,6 +22,8 @@ func c20(c *eng.Ctx, r *eng.Report) {
 		"R20.5 a BeforeExecute implementation mutates state only through ProcessFee; " +
 		"R20.6 a record is rewritten read-modify-write — UpdateMiner(m, db, false), which writes stake, account and status together, is given the record just read from the registry — and RemoveMiner erases the four slots only on the `left == 0` edge. " +
 		"R20.7 the stake total and the proposer set used for leader election grow together, by the record's own stake, only for non-nil records whose status is normal and whose ApplyHeight has been reached, and the proposer count is the size of that same set (no second walk with its own filter). " +
+		"R20.11 every lookup answers from the state it is handed: no method of MinerManager consults a process-local cache or writes a package variable — the registration record, stake, account and status live in the AccountDB passed in, and a memo keyed by id outlives the deletion of the record (apply, refund everything, apply again with new keys: lookup by id returns the old ApplyHeight and keys while the registry iteration sees the new record); " +
+		"R20.12 a miner record disappears only through the reviewed paths: RemoveMiner is called by the refund path (which has computed what is left and scheduled the refund) and by the two one-off clean-ups of unused validators, nowhere else — a second caller that removes an aborted miner to let it apply again drops the stake still locked in the record (200 of 10000 vanish); " +
 		"R20.10 an escrow slot accumulates: in RefundManager.Add every SetData for an id whose slot was found non-empty writes a value computed from what GetData returned (existing + new) — only on the `slot empty` edge may the new amount be stored alone; a second batch for the same height and account (the unstake opcodes flush per call; a reward landing on the same height) otherwise replaces the first and the earlier refund vanishes; " +
 		"R20.9 a refund never exceeds the stake: the subtraction `miner.Stake - money` in GetRefundStake happens only on the `miner.Stake >= money` edge (the fields are unsigned — a test of the difference against zero can never fire, the difference wraps to about 2^64 and the full amount is scheduled); " +
 		"R20.8 what AddMiner/AddStake check is what they record: no field of the miner record (account, id, type, stake) is assigned between the uniqueness lookups and UpdateMiner. " +
@@ -38,6 +40,8 @@ func c20(c *eng.Ctx, r *eng.Report) {
 	c20CheckedIsRecorded(c, r)
 	c20RefundBounded(c, r)
 	c20EscrowAccumulates(c, r)
+	c20LookupsUncached(c, r)
+	c20WhoRemovesMiners(c, r)
 }
 
 func c20Layers(c *eng.Ctx, r *eng.Report) {
@@ -755,5 +759,58 @@ func c20EscrowAccumulates(c *eng.Ctx, r *eng.Report) {
 	}
 	if n == 0 {
 		r.Fail(rule, "escrow-accumulates:none", c.Pos(fn.Pos()), "RefundManager.Add no longer calls SetData: the rule has lost its anchor")
+	}
+}
+
+// c20LookupsUncached: see R20.11.
+func c20LookupsUncached(c *eng.Ctx, r *eng.Report) {
+	const rule = "R20.11"
+	r.Min(rule, 1)
+	n, hits := 0, 0
+	for _, fn := range c.PkgFuncs("service") {
+		if fn.Signature.Recv() == nil || !strings.HasSuffix(fn.Signature.Recv().Type().String(), "service.MinerManager") {
+			continue
+		}
+		n++
+		for _, h := range eng.ScanNondeterminism(fn) {
+			if h.Kind != "cache" && h.Kind != "global-store" {
+				continue
+			}
+			hits++
+			r.Fail(rule, h.Kind+":"+eng.FuncName(fn), c.Pos(h.Pos), h.Detail+" in "+eng.FuncName(fn)+": what a miner lookup returns then depends on what this process looked up before, not only on the state it is handed — a record that was deleted and registered again (refund of the whole stake, then a new apply with new keys) is answered from the memo by id while the iteration over the registry reads the new record: the lookups disagree on ApplyHeight, keys and whether the miner is active")
+		}
+	}
+	if hits == 0 {
+		r.Pass(rule, "lookups:uncached", "", fmt.Sprintf("%d MinerManager methods, none reads a process-local cache or writes a package variable", n))
+	}
+}
+
+// c20WhoRemovesMiners: see R20.12.
+func c20WhoRemovesMiners(c *eng.Ctx, r *eng.Report) {
+	const rule = "R20.12"
+	r.Min(rule, 3)
+	allowed := map[string]string{
+		"(*service.RefundManager).GetRefundStake":         "the refund path: `left` was computed from the recorded stake and the refund is scheduled by the caller",
+		"(*service.MinerManager).RemoveUnusedValidator":   "one-off clean-up of validators that never worked (proposal height)",
+		"core.removeUnusedValidator":                      "one-off clean-up at a proposal height",
+		"core.removeUnusedValidator1":                     "one-off clean-up at a proposal height",
+	}
+	n := 0
+	for _, fn := range c.ModFuncs() {
+		if fn.Blocks == nil {
+			continue
+		}
+		for _, s := range eng.Sites(fn) {
+			if s.Name() != "(*service.MinerManager).RemoveMiner" {
+				continue
+			}
+			n++
+			name := eng.FuncName(fn)
+			why, ok := allowed[name]
+			r.Check(ok, rule, "miner-remover:"+name, c.Pos(s.Pos()), why, name+" removes a miner record: RemoveMiner erases the record's slots including whatever stake is still locked in it, and only the refund path knows what that is and schedules it — here the leftover of an aborted miner (below the minimum, above zero) is neither refunded nor carried over, so locked + escrow + liquid drops (10000 → 9800)")
+		}
+	}
+	if n == 0 {
+		r.Fail(rule, "miner-remover:none", "", "no caller of RemoveMiner found: the rule has lost its anchor")
 	}
 }
